@@ -214,9 +214,9 @@ class SgzCropper(SgzReader):
             new_sgz_file.write(header)
             new_sgz_file.write(compressed_bytes)
 
-            self.read_variant_headers(include_padding=True)
             for k in self.stored_header_keys:
-                header_array = self.variant_headers[k].reshape((self.n_ilines, self.n_xlines)).astype(np.int32)
+                # Whole stored array, whatever header look-ups were made on this object before
+                header_array = self.get_tracefield_1d(k).reshape((self.n_ilines, self.n_xlines)).astype(np.int32)
                 cropped_header_array = header_array[iline_index_range[0]:iline_index_range[1],
                                                     xline_index_range[0]:xline_index_range[1]]
                 header_bytes = cropped_header_array.flatten().tobytes()
